@@ -1,5 +1,7 @@
 """C19 — typecheck reports exactly the FSArray element-type violations."""
+import copy
 import json
+import random
 
 from harness import scen
 from harness.gallina import glist, gz
@@ -11,6 +13,7 @@ PROPS_FILE = "Props/C19.v"
 CORR_IMPORTS = "Base Heap Schema Reach Typecheck CorrC19"
 ENTRY = "cassis.cas.Cas.typecheck / cassis.typesystem.TypeSystem.typecheck"
 CASE_TIMEOUT_S = 10
+CASE_TYPE, CHECK_FN, PREMISES_FN = "staged", "check_staged", "premises_staged"     # a case is a sequence of calls
 RULE = (
     "Type system with a four-level type tree and owner types whose FSArray features have no element type, element type "
     "TOP, a supertype, the exact type, a subtype and an unrelated type of what is stored (inline and shared arrays, also "
@@ -19,7 +22,12 @@ RULE = (
     "of uima.cas.TOP, owners in other views than the one typecheck is called through, owners "
     "indexed or reachable only through references, arrays, lists and TOP features, unreachable owners, ids absent / "
     "partial / explicit; systematic small scopes (every stored type x every feature) plus random graphs, plus random "
-    "scen.gen_tspec/gen_cspec CASes. Observation: sorted xmiIDs of the returned errors (or the error kind). A case is "
+    "scen.gen_tspec/gen_cspec CASes. Sequences of calls on ONE TypeSystem object that gains FSArray features between the "
+    "calls (on the type of an instance checked before, on its supertype, on a subtype; a feature pulled up to the supertype "
+    "with the definition its subtype already has, or declared again on a subtype), a fresh CAS per call, every call observed; "
+    "CASes whose feature structures (all, the owners, the elements, a random part) were created with the Type objects of a "
+    "second TypeSystem declaring the same types (built again or re-read from to_xml). Every call is made twice. "
+    "Observation: sorted xmiIDs of the returned errors (or the error kind) of every call. A case is "
     "non-trivial when it has a violation, a null element, an unset FSArray feature or a referenced-only owner."
 )
 TRUSTED = [
@@ -32,6 +40,10 @@ ASSUMPTIONS = [
     "well-formed heaps: FSArray-valued features hold None or an array whose elements is None/empty or a list of None / "
     "feature structures of types known to the type system; explicit ids pairwise distinct and below the id generator",
     "seed order is the observed View.get_all_annotations order and is an input of the model",
+    "sequences of calls: a CAS holds only feature structures created after the last feature was declared on their type or "
+    "its supertypes (each call has a fresh CAS); a feature declared a second time (pull-up, repetition on a subtype) has "
+    "the identical definition",
+    "a second TypeSystem whose Type objects create feature structures declares exactly the same types and features",
 ]
 
 T = scen.T
@@ -244,7 +256,287 @@ def random_tc(rng, n):
     return sc
 
 
+# ---------------------------------------------------------------- sequences of calls on one TypeSystem; foreign Type objects
+#
+# scenario with "stages": sc["tspec"] is the type system before the first call; stage k = {"add": [{"type", "feat"}] features
+# declared (create_feature, in this order, on the SAME TypeSystem object) before call k, "cspec": the CAS of call k (built
+# afresh on that TypeSystem), "foreign": labels of the objects created with the Type objects of a second TypeSystem that
+# declares the same types ("how": "rebuild" = built by the same declarations | "reload" = load_typesystem(to_xml()))}.
+# A scenario without "stages" is one call; it may carry "foreign"/"how" itself.
+
+S_BASE = [
+    {"name": "s.Item", "super": TOP, "feats": []},
+    {"name": "s.SubItem", "super": "s.Item", "feats": []},
+    {"name": "s.Other", "super": TOP, "feats": []},
+    {"name": "s.Holder", "super": TOP, "feats": [_f("label", T + "String")]},
+    {"name": "s.Special", "super": "s.Holder", "feats": []},
+    {"name": "s.Deep", "super": "s.Special", "feats": []},
+    {"name": "s.Ann", "super": ANNOTATION, "feats": []},
+]
+S_ITEMS = _f("items", FS_ARRAY, "s.Item")
+# what a sequence may declare, in the base or before any later call; H/S/D.items are one definition on three levels of one
+# branch: whichever comes first, the later ones are accepted (identical redefinition) and the feature stays one feature
+S_POOL = {
+    "H.items": ("s.Holder", S_ITEMS), "S.items": ("s.Special", S_ITEMS), "D.items": ("s.Deep", S_ITEMS),
+    "H.any": ("s.Holder", _f("any", FS_ARRAY)), "S.extra": ("s.Special", _f("extra", FS_ARRAY, "s.SubItem")),
+    "H.shared": ("s.Holder", _f("shared", FS_ARRAY, "s.Other", True)), "A.marks": ("s.Ann", _f("marks", FS_ARRAY, "s.Other")),
+    "D.tops": ("s.Deep", _f("tops", FS_ARRAY, TOP)), "S.ref": ("s.Special", _f("ref", "s.Holder")),
+}
+SB_OBJ_TYPES = [FS_ARRAY, T + "String"]      # built-in part of every schema of this family: constant schemaSB of CorrC19.v
+S_OWNERS = ["s.Holder", "s.Special", "s.Deep", "s.Ann"]
+S_ELEMS = ["s.Item", "s.SubItem", "s.Other"]
+
+
+def _adds(keys):
+    return [{"type": S_POOL[k][0], "feat": dict(S_POOL[k][1])} for k in keys]
+
+
+def tspec_after(tspec, adds):
+    """The declarations in force after `adds`: every added feature appended to its type (feature order is immaterial here)."""
+    out = copy.deepcopy(tspec)
+    for a in adds:
+        [t for t in out if t["name"] == a["type"]][0]["feats"].append(dict(a["feat"]))
+    return out
+
+
+def stages_of(sc):
+    """One self-contained single-call scenario per call ("decl": the declarations in the order they were made)."""
+    if "stages" not in sc:
+        return [sc]
+    out, tspec, adds = [], sc["tspec"], []
+    for st in sc["stages"]:
+        tspec = tspec_after(tspec, st["add"])
+        adds = adds + st["add"]
+        out.append({"kind": "tc", "shape": sc["shape"], "tspec": tspec, "cspec": st["cspec"], "inl": False, "seeds": None,
+                    "foreign": st.get("foreign"), "how": st.get("how"), "decl": {"base": sc["tspec"], "adds": adds}})
+    return out
+
+
+def declared_order(base, adds):
+    """type -> (own, inherited): names of the user-declared features in the order Type.all_features lists them when the
+    features of `base` are declared type by type (scen.build_ts) and then `adds` one by one: a declaration is appended to the
+    type's own features and to the inherited ones of its descendants; it changes nothing where the name is already there (an
+    identical definition declared again, on the type or above a subtype that has it)."""
+    sup = {t["name"]: t["super"] for t in base}
+    kids = {n: [m for m in sup if sup[m] == n] for n in sup}
+    own, inh = {n: [] for n in sup}, {n: [] for n in sup}
+
+    def inherit(t, name):
+        if name not in inh[t]:
+            inh[t].append(name)
+            for k in kids[t]:
+                inherit(k, name)
+
+    def declare(t, name):
+        if name not in own[t] and name not in inh[t]:
+            own[t].append(name)
+            for k in kids[t]:
+                inherit(k, name)
+
+    for t in base:
+        for f in t["feats"]:
+            declare(t["name"], f["name"])
+    for a in adds:
+        declare(a["type"], a["feat"]["name"])
+    return {n: (own[n], [x for x in inh[n] if x not in own[n]]) for n in sup}
+
+
+def in_declared_order(schema, decl):
+    """scen.schema_of lists the effective features as if every feature had been declared after every type, type by type; the
+    traversal that hands out ids follows Type.all_features, so the schema given to the model follows the real history:
+    own features, what was inherited from the built-in ancestors when the type was created, then what arrived later."""
+    out = dict(schema)
+    for n, (own, inh) in declared_order(decl["base"], decl["adds"]).items():
+        feats = schema[n]["feats"]
+        by = {f[0]: f for f in feats}
+        if sorted(own + inh) != sorted(x for x in by if x in own or x in inh) or len(by) != len(feats):
+            raise ValueError("declared features of %s: %s / %s" % (n, own + inh, sorted(by)))
+        out[n] = {"anc": schema[n]["anc"],
+                  "feats": [by[x] for x in own] + [f for f in feats if f[0] not in own and f[0] not in inh] + [by[x] for x in inh]}
+    return out
+
+
+def _array_feats(cassis, tspec):
+    schema = scen.schema_of(cassis, tspec)
+    return {t: [f[0] for f in schema[t]["feats"] if f[2] == FS_ARRAY] for t in S_OWNERS}
+
+
+def _s_owner(b, ot, k=0, **refs):
+    if ot == "s.Ann":
+        return b.new(ot, None, sofa={"sofa": b.views[0]["name"]}, begin={"i": k}, end={"i": k + 1},
+                     **{n: reach.ref(v) for n, v in refs.items()})
+    return b.new(ot, None, label={"s": "l%d" % k}, **{n: reach.ref(v) for n, v in refs.items()})
+
+
+def full_cas(cassis, tspec, elems, owners=S_OWNERS):
+    """One indexed instance of every owner type, every FSArray feature it has at this point holding an array of `elems`
+    (type names or None), a fresh array and fresh elements each."""
+    feats = _array_feats(cassis, tspec)
+    b = B()
+    for k, ot in enumerate(owners):
+        vals = {fn: b.arr([None if e is None else b.new(e) for e in elems]) for fn in feats[ot]}
+        b.add(_s_owner(b, ot, k, **vals))
+    return b.cspec()
+
+
+def random_stage_cas(rng, cassis, tspec):
+    feats = _array_feats(cassis, tspec)
+    b = B()
+    pool = [b.new(rng.choice(S_ELEMS)) for _ in range(rng.randint(2, 4))]
+    owners = []
+    for k, ot in enumerate(S_OWNERS):
+        for j in range(rng.choice([0, 1, 1, 1, 2])):
+            owners.append(_s_owner(b, ot, 3 * k + j))
+    if not owners:
+        owners.append(_s_owner(b, rng.choice(S_OWNERS)))
+    arrays = []
+    for o in owners:
+        obj = b.objs[o - 1]
+        for fn in feats[obj["type"]]:
+            r = rng.random()
+            if r < 0.2:
+                continue
+            if r < 0.27:
+                a = b.arr_none()
+            elif r < 0.35 and arrays:
+                a = rng.choice(arrays)
+            else:
+                a = b.arr([None if rng.random() < 0.2 else rng.choice(pool + owners) for _ in range(rng.choice([0, 1, 2, 3, 4]))])
+                arrays.append(a)
+            obj["slots"][fn] = reach.ref(a)
+    hidden = set()
+    if "ref" in [f["name"] for t in tspec if t["name"] == "s.Special" for f in t["feats"]]:
+        specials = [o for o in owners if b.objs[o - 1]["type"] in ("s.Special", "s.Deep")]
+        plain = [o for o in owners if b.objs[o - 1]["type"] != "s.Ann"]
+        for o in specials:
+            if rng.random() < 0.5:
+                tgt = rng.choice(plain)
+                b.objs[o - 1]["slots"]["ref"] = reach.ref(tgt)
+                if tgt != o and rng.random() < 0.6:
+                    hidden.add(tgt)                      # reachable through the reference only (when its holder is indexed)
+    for o in owners:
+        if o not in hidden:
+            b.add(o)
+    if not b.members:
+        b.add(owners[0])
+    return b.cspec()
+
+
+def systematic_staged():
+    cassis = reach._CASSIS.get("m")
+    mixed = ["s.Item", None, "s.Other", "s.SubItem"]
+
+    def seq(shape, base_keys, *stage_keys, elems=mixed):
+        base = tspec_after(S_BASE, _adds(base_keys))
+        stages, cur = [], base
+        for keys in [[]] + [list(k) for k in stage_keys]:
+            cur = tspec_after(cur, _adds(keys))
+            stages.append({"add": _adds(keys), "cspec": full_cas(cassis, cur, elems), "foreign": None, "how": None})
+        return {"kind": "tc", "shape": "staged:" + shape, "tspec": base, "stages": stages, "inl": False, "seeds": None}
+
+    # a type is checked while it has no FSArray feature, then gains one (directly, from its supertype, on an annotation type)
+    for k in S_POOL:
+        if k != "S.ref":
+            yield seq("first:" + k, [], [k])
+    yield seq("first:all", [], [k for k in S_POOL if k not in ("S.items", "D.items")])
+    # a type that has an FSArray feature gains another one; a non-array feature arrives in between
+    yield seq("second", ["H.any"], ["S.extra"], ["S.ref", "H.items"], ["A.marks"])
+    yield seq("second", ["S.extra", "A.marks"], ["H.shared"], ["D.tops"])
+    # the same definition declared on a subtype first and on the supertype afterwards (pull-up), and the other way round
+    yield seq("pullup", ["S.items"], ["H.items"])
+    yield seq("pullup", ["D.items"], ["S.items"], ["H.items"])
+    yield seq("pullup", [], ["D.items", "S.items"], ["H.items", "H.any"])
+    yield seq("pullup", ["S.items", "D.items"], ["H.items"], elems=["s.Other", "s.Other", "s.Item"])
+    yield seq("repeat", ["H.items"], ["S.items"], ["D.items"])
+    yield seq("repeat", [], ["H.items", "D.items"], ["S.items"], elems=["s.Other"])
+
+
+def random_staged(rng):
+    cassis = reach._CASSIS.get("m")
+    keys = list(S_POOL)
+    rng.shuffle(keys)
+    n = rng.choice([2, 2, 3, 4])
+    base_keys = [k for k in keys if rng.random() < 0.25]
+    rest = [k for k in keys if k not in base_keys]
+    per = [[] for _ in range(n)]
+    for k in rest:
+        if rng.random() < 0.8:
+            per[rng.randrange(1, n)].append(k)
+    base = tspec_after(S_BASE, _adds(base_keys))
+    stages, cur = [], base
+    for keys_k in per:
+        cur = tspec_after(cur, _adds(keys_k))
+        st = {"add": _adds(keys_k), "cspec": random_stage_cas(rng, cassis, cur), "foreign": None, "how": None}
+        if rng.random() < 0.15:
+            st["foreign"] = sorted(o["o"] for o in st["cspec"]["objs"] if rng.random() < 0.6)
+            st["how"] = rng.choice(["rebuild", "reload"])
+        if rng.random() < 0.3:
+            reach.set_ids(st, rng.choice(["all", "partial"]), rng)
+        stages.append(st)
+    return {"kind": "tc", "shape": "staged:random", "tspec": base, "stages": stages, "inl": False, "seeds": None}
+
+
+def with_foreign(sc, which, how, rng=None):
+    """The same call, some of its feature structures created with the Type objects of a second, identical TypeSystem:
+    which = all | owners (everything that is not an element or an array/list node) | elements | random."""
+    c = json.loads(json.dumps(sc))
+    objs = c["cspec"]["objs"]
+    owner_types = set(OWNER_FEATS)
+    if which == "all":
+        labs = [o["o"] for o in objs]
+    elif which == "owners":
+        labs = [o["o"] for o in objs if o["type"] in owner_types]
+    elif which == "elements":
+        labs = [o["o"] for o in objs if o["type"] not in owner_types]
+    else:
+        labs = [o["o"] for o in objs if rng.random() < 0.5]
+    c["foreign"], c["how"] = labs, how
+    c["shape"] = "foreign:" + which
+    return c
+
+
+def systematic_foreign():
+    k = 0
+    for ot, fn in (("c.Owner", "any"), ("c.Owner", "bases"), ("c.Owner", "mids"), ("c.Owner", "others"), ("c.Owner", "shared"),
+                   ("c.SubOwner", "leaves"), ("c.SubOwner", "extra"), ("c.AnnOwner", "items")):
+        for which in ("all", "owners", "elements"):
+            b = B()
+            els = [b.new(st) for st in ("c.Base", "c.Mid", "c.Leaf", "c.Other")]
+            o = b.owner(ot, **{fn: b.arr([els[0], els[1], None, els[2], els[3], els[2]])})
+            b.add(o)
+            k += 1
+            yield with_foreign(sc_of(b, "x"), which, "reload" if k % 4 == 0 else "rebuild")
+    # a foreign owner reachable only through a native one and the other way round
+    for flip in (False, True):
+        b = B()
+        bad = b.new("c.Other")
+        target = b.owner("c.SubOwner", mids=b.arr([bad, b.new("c.Leaf"), bad]), extra=b.arr([b.new("c.Mid")]))
+        holder = b.owner("c.Owner", ref=target, owners=b.arr([target, None]), leaves=b.arr([b.new("c.Leaf"), b.new("c.Mid")]))
+        b.add(holder)
+        c = sc_of(b, "foreign:mixed")
+        c["foreign"] = [o["o"] for o in c["cspec"]["objs"] if (o["o"] >= holder) == flip]
+        c["how"] = "rebuild"
+        yield c
+
+
+def new_families(rng, tier):
+    """Sequences of calls and foreign Type objects (third-wave widening)."""
+    if tier != "search":
+        yield from systematic_staged()
+        yield from systematic_foreign()
+    for _ in range({"quick": 60, "thorough": 800, "search": 600}[tier]):
+        yield random_staged(rng)
+    for _ in range({"quick": 60, "thorough": 600, "search": 400}[tier]):
+        sc = random_tc(rng, rng.choice([1, 2, 3, 4]))
+        yield with_foreign(sc, rng.choice(["all", "owners", "elements", "random", "random"]), rng.choice(["rebuild", "rebuild", "reload"]), rng)
+
+
 def generate(rng, tier):
+    # the new families draw from a stream of their own, so that everything generated before them is what it always was
+    if tier == "search":
+        rng2 = random.Random()
+        rng2.setstate(rng.getstate())
+        yield from new_families(rng2, tier)
     if tier != "search":
         for sc in systematic():
             yield sc
@@ -260,17 +552,77 @@ def generate(rng, tier):
         tspec = scen.gen_tspec(rng, n_types=rng.randint(2, 6), max_feats=4, awkward=False)
         cspec = scen.gen_cspec(rng, cassis, tspec, n_objs=(1, 8), all_ids=rng.random() < 0.5)
         yield {"kind": "tc", "shape": "gen_cspec", "tspec": tspec, "cspec": cspec, "inl": False, "seeds": None}
+    if tier != "search":
+        yield from new_families(rng, tier)
 
 
 # ------------------------------------------------------------------------------------------------ implementation side
 
 
+def _build_cas_mixed(cassis, ts, ts2, foreign, cspec):
+    """scen.build_cas, except that the objects labelled in `foreign` are created with the Type objects of ts2; the CAS, its
+    views and sofas belong to ts."""
+    cas = cassis.Cas(typesystem=ts)
+    views = [cas if i == 0 else cas.create_view(v["name"]) for i, v in enumerate(cspec["views"])]
+    for view, v in zip(views, cspec["views"]):
+        if v.get("text") is not None:
+            view.sofa_string = "".join(chr(c) for c in v["text"])
+    vname = {v["name"]: views[i] for i, v in enumerate(cspec["views"])}
+    objs = {}
+    for o in cspec["objs"]:
+        kw = {"xmiID": o["id"]} if o.get("id") is not None else {}
+        objs[o["o"]] = (ts2 if o["o"] in foreign else ts).get_type(o["type"])(**kw)
+
+    def conv(v):
+        if v is None:
+            return None
+        for k in ("i", "b", "s"):
+            if k in v:
+                return v[k]
+        if "ref" in v:
+            return objs[v["ref"]]
+        if "list" in v:
+            return [conv(e) for e in v["list"]]
+        if "sofa" in v:
+            return vname[v["sofa"]].get_sofa()
+        raise ValueError(v)
+
+    for o in cspec["objs"]:
+        for k, v in o["slots"].items():
+            setattr(objs[o["o"]], k, conv(v))
+    for vi, lab in cspec["members"]:
+        views[vi].add(objs[lab], keep_id=True)
+    return cas, views, objs
+
+
 def run_impl(cassis, sc):
     reach._CASSIS["m"] = cassis
-    ts = scen.build_ts(cassis, sc["tspec"])
-    cas0, _v0, _o0 = scen.build_cas(cassis, ts, sc["cspec"])
+    ts = scen.build_ts(cassis, sc["tspec"])                       # ONE TypeSystem object for all calls of the scenario
+    if "stages" not in sc:
+        return _run_call(cassis, ts, sc)
+    out = []
+    for st, call in zip(sc["stages"], stages_of(sc)):
+        for a in st["add"]:
+            f = a["feat"]
+            ts.create_feature(ts.get_type(a["type"]), f["name"], f["range"], elementType=f.get("elem"),
+                              multipleReferencesAllowed=f.get("multi"))
+        out.append(_run_call(cassis, ts, call))
+    return {"stages": out, "err": next((o["err"] for o in out if o["err"]), None), "owners": [i for o in out for i in o["owners"]]}
+
+
+def _run_call(cassis, ts, sc):
+    foreign = set(sc.get("foreign") or [])
+    if foreign:
+        ts2 = cassis.load_typesystem(ts.to_xml()) if sc.get("how") == "reload" else scen.build_ts(cassis, sc["tspec"])
+
+        def build():
+            return _build_cas_mixed(cassis, ts, ts2, foreign, sc["cspec"])
+    else:
+        def build():
+            return scen.build_cas(cassis, ts, sc["cspec"])
+    cas0, _v0, _o0 = build()
     next_before = reach._probe_next(cas0, ts, sc["tspec"])
-    cas, views, objs = scen.build_cas(cassis, ts, sc["cspec"])
+    cas, views, objs = build()
     lab = {id(o): l for l, o in objs.items()}
     ids_before = {str(l): o.xmiID for l, o in objs.items()}
     members = [[lab.get(id(x), -1) for x in v.select_all()] for v in views]
@@ -284,8 +636,12 @@ def run_impl(cassis, sc):
     except Exception as e:  # noqa
         err = reach._errkind(e)
     ids_after = {str(l): o.xmiID for l, o in objs.items()}
+    try:                                                          # the same call once more on the same objects
+        again = sorted(e.xmiID for e in cas.typecheck())
+    except Exception as e:  # noqa
+        again = reach._errkind(e)
     return {"next_before": next_before, "ids_before": ids_before, "members": members, "sofas": sofas, "err": err,
-            "owners": owners, "ids_after": ids_after}
+            "owners": owners, "ids_after": ids_after, "again": again}
 
 
 # ------------------------------------------------------------------------------------------------ oracle (from the scenario)
@@ -317,6 +673,16 @@ def expected_owner_labels(cassis, sc, obs):
 
 
 def oracle(cassis, sc, obs):
+    if "stages" not in sc:
+        return _oracle_call(cassis, sc, obs)
+    for k, (call, ob) in enumerate(zip(stages_of(sc), obs["stages"])):
+        m = _oracle_call(cassis, call, ob)
+        if m:
+            return f"call {k + 1} of {len(sc['stages'])} on the same TypeSystem: {m}"
+    return None
+
+
+def _oracle_call(cassis, sc, obs):
     if obs["err"] is not None:
         idb = {int(k): v for k, v in obs["ids_before"].items()}
         if obs["err"] == "EDupId":
@@ -332,6 +698,8 @@ def oracle(cassis, sc, obs):
     exp = sorted(ida[l] for l in labels)
     if obs["owners"] != exp:
         return f"typecheck returned errors for owners {obs['owners'][:20]}, expected {exp[:20]}"
+    if obs.get("again", exp) != exp:
+        return f"typecheck called a second time on the same CAS returned {str(obs['again'])[:80]}, expected {exp[:20]}"
     return None
 
 
@@ -339,6 +707,14 @@ def oracle(cassis, sc, obs):
 
 
 def render(sc, obs):
+    if "stages" not in sc:
+        t = _render_call(sc, obs)
+        return None if t is None else f"[{t}]"
+    ts = [_render_call(call, ob) for call, ob in zip(stages_of(sc), obs["stages"])]
+    return None if any(t is None for t in ts) else "[" + ";\n ".join(ts) + "]"
+
+
+def _render_call(sc, obs):
     if any(l < 0 for m in obs["members"] for l in m):
         return None
     cassis = reach._CASSIS.get("m")
@@ -352,12 +728,22 @@ def render(sc, obs):
             schema_term = "schemaC"
     if schema_term is None:
         schema = scen.schema_of(cassis, sc["tspec"])
-        schema_term = scen.g_schema(schema, scen.used_type_names(schema, sc["cspec"]))
+        if sc.get("decl"):
+            schema = in_declared_order(schema, sc["decl"])
+        names = scen.used_type_names(schema, sc["cspec"])
+        if sc["tspec"][0]["name"] == "s.Item":
+            # the user types (sorted before uima.*) rendered per call, the built-in rest by the constant when it is verbatim
+            ok, builtin = reach.schema_const_usable(cassis, [], SB_OBJ_TYPES, "CorrC19.v", "schemaSB")
+            own = [n for n in names if n.startswith("s.")]
+            if ok and all(n in builtin for n in names if n not in own):
+                schema_term = f"({scen.g_schema(schema, own)}\n  ++ schemaSB)"
+    if schema_term is None:
+        schema_term = scen.g_schema(schema, names)
     return (f"mkCase {schema_term}\n {reach._g_cas(sc, obs)}\n {err} {glist([gz(i) for i in obs['owners']])}")
 
 
 def nontrivial(sc):
-    for o in sc["cspec"]["objs"]:
+    for o in [o for call in stages_of(sc) for o in call["cspec"]["objs"]]:
         if o["type"] == FS_ARRAY:
             e = o["slots"].get("elements")
             if e is None or None in e["list"] or len(e["list"]) > 1:
@@ -365,7 +751,8 @@ def nontrivial(sc):
     return False
 
 
-def shrink_candidates(sc):
+def _shrink_call(sc):
+    """sc: anything with "cspec" (a single-call scenario or a stage) and perhaps "foreign"."""
     yield from reach._shrink_candidates(sc)
     for o in sc["cspec"]["objs"]:
         e = o["slots"].get("elements")
@@ -374,10 +761,42 @@ def shrink_candidates(sc):
                 c = json.loads(json.dumps(sc))
                 del [x for x in c["cspec"]["objs"] if x["o"] == o["o"]][0]["slots"]["elements"]["list"][i]
                 yield c
+    for i in range(len(sc.get("foreign") or [])):
+        c = json.loads(json.dumps(sc))
+        del c["foreign"][i]
+        yield c
+
+
+def shrink_candidates(sc):
+    if "stages" not in sc:
+        yield from _shrink_call(sc)
+        return
+    n = len(sc["stages"])
+    for k in range(n - 1):                     # leave out call k; what was declared before it is declared before the next one
+        c = json.loads(json.dumps(sc))
+        st = c["stages"].pop(k)
+        if k == 0:
+            c["tspec"] = tspec_after(c["tspec"], st["add"])
+        else:
+            c["stages"][k]["add"] = st["add"] + c["stages"][k]["add"]
+        yield c
+    for k in range(1, n):                      # declare less (only features nothing in the later CASes uses)
+        for i, a in enumerate(sc["stages"][k]["add"]):
+            used = any(a["feat"]["name"] in o["slots"] for st in sc["stages"][k:] for o in st["cspec"]["objs"])
+            if not used:
+                c = json.loads(json.dumps(sc))
+                del c["stages"][k]["add"][i]
+                yield c
+    for k in range(n):
+        for cst in _shrink_call(sc["stages"][k]):
+            c = json.loads(json.dumps(sc))
+            c["stages"][k] = cst
+            yield c
 
 
 def signature(sc, msg):
-    return {"shape": sc.get("shape", "").split(":")[0], "what": (msg or "").split(" for owners")[0][:60]}
+    what = (msg or "").split(" for owners")[0]
+    return {"shape": sc.get("shape", "").split(":")[0], "what": what.split("TypeSystem: ")[-1][:60]}
 
 
 def distribution(scenarios, observations):
@@ -389,7 +808,8 @@ def distribution(scenarios, observations):
             "with_errors": sum(1 for o in observations if o and o["owners"]),
             "max_errors": max([len(o["owners"]) for o in observations if o] or [0]),
             "raised": sum(1 for o in observations if o and o["err"]),
-            "max_objects": max([len(s["cspec"]["objs"]) for s in scenarios] or [0])}
+            "calls": sum(len(stages_of(s)) for s in scenarios),
+            "max_objects": max([len(c["cspec"]["objs"]) for s in scenarios for c in stages_of(s)] or [0])}
 
 
 MANIFEST = {
